@@ -12,7 +12,7 @@ import numpy as np
 
 from vf import common, engine
 from vf.engine import Discard, Issue, Rejected
-from vf.prog import ast, gen, obs
+from vf.prog import ast, build, gen, obs
 
 HERE = os.path.dirname(os.path.abspath(__file__))
 
@@ -169,7 +169,9 @@ def run_case(ctx, plan, rng, ci, nops):
     start = str(rng.choice(list(plan.start)))
     rec = None
     if start == "simulate":
-        jit_start = rng.random() < 0.25
+        # (only when every argument is an array: a Python flag / index closed over by jit comes
+        # back as an array in trace.get_args(), i.e. a different trace than the one judged)
+        jit_start = rng.random() < 0.25 and not any(isinstance(a, build.PyVal) for a in args)
         hist.append(f"simulate args={_short(args)}" + (" [under jax.jit]" if jit_start else ""))
         if jit_start:
             ctx.count("traces:simulate-under-jit")
